@@ -1,14 +1,18 @@
-(** Correspondence for C16 (genesis export / re-import).  Three kinds of cases:
-    - [C16Store orig exported imp]: the complete "tibc" KVStore of a real chain
+(** Correspondence for C16 (genesis export / re-import).  Kinds of cases:
+    - [C16StoreD orig exported lost changed_or_new] (and [C16Store] with the
+      imported store spelled out): the complete "tibc" KVStore of a real chain
       ([orig], ascending keys), whether tibc.ExportGenesis returned (no panic),
-      and the complete store of a fresh chain after tibc.InitGenesis of the
-      JSON-round-tripped export ([imp]).  The model must predict the panic and
-      the imported store key by key, value by value.
+      and the complete store of a fresh application after tibc.InitGenesis of the
+      JSON-round-tripped export, given as its difference from [orig].  The model
+      must predict the panic and the imported store key by key, value by value.
     - [C16Apps orig imp]: the NFT/MT transfer store before and after.
-    - [C16Net names steps]: a network history on real chains in which one chain
-      is exported and re-imported in place ([SReimport]); every later message
-      is executed by the re-imported real chain and compared with the packet
-      model continuing from [pkt_reimport] of its store. *)
+    - [C16Net names steps] / [C16App names escrows steps]: a network history on
+      real chains in which chains are exported and re-imported in place
+      ([SReimport] / [SAReimport]); every later message is executed by the
+      re-imported real chain and compared (verdict, events, packet store, token
+      ledgers) with the packet / application model continuing from the model's
+      re-import of its store; the history before the first re-import is compared
+      by verdict only ([SNetL] / [SAppL]). *)
 From Tibc Require Import Base.Bytes Base.FMap Host.Keys Routing.Rules Packet.Types Packet.Keeper Net.Net.
 From Tibc Require Import Apps.Path Apps.Nft Apps.Mt Apps.App Genesis.Export.
 From Tibc Require Export Harness.Net Harness.AppNet.
